@@ -140,17 +140,18 @@ func runInterp(src string) (r progRes) {
 // verdicts
 
 type checker struct {
-	c        *fw.Ctx
-	mu       sync.Mutex
-	seen     map[string]bool
-	programs int
-	steps    int
-	failing  int
-	native   int
-	nativeOK int
-	bySig    map[string]int
-	unlisted map[string]int
-	kinds    map[string]int
+	c            *fw.Ctx
+	mu           sync.Mutex
+	seen         map[string]bool
+	programs     int
+	steps        int
+	failing      int
+	native       int
+	nativeOK     int
+	bySig        map[string]int
+	unlisted     map[string]int
+	kinds        map[string]int
+	corroborated map[string]int
 }
 
 var (
@@ -207,8 +208,9 @@ func (ck *checker) process(cases []*kase, par int, nativeEvery int) {
 		want  []string
 		res   progRes
 		crash string
-		step  int    // first differing line (len(want): agrees)
-		got   string // the differing line
+		step  int          // first differing line (len(want): agrees)
+		got   string       // the differing line
+		attr  []*construct // listed constructs whose neutralising rewrite makes the history agree
 	}
 	var sts []*st
 	for _, k := range cases {
@@ -311,7 +313,85 @@ func (ck *checker) process(cases []*kase, par int, nativeEvery int) {
 			natSample = append(natSample, s)
 		}
 	}
-	// native reference: every disagreement alone, the agreeing sample many per program
+	// attribution to construct-shaped findings (DESIGN 2.4, neutralising rewrite): a deviating
+	// history that contains such a construct before the first differing step is rendered again
+	// with the construct rewritten through a temporary (a rewrite that preserves the model's
+	// prediction); if the interpreter then agrees with the model on the whole history, the
+	// deviation is attributed to the construct(s) that had to be rewritten
+	type attempt struct {
+		s   *st
+		set []*construct
+	}
+	var atts []attempt
+	for _, s := range bad {
+		if s.crash != "" {
+			continue
+		}
+		var present []*construct
+		for ci := range constructs {
+			for x, o := range s.k.B.Ops {
+				if x < s.step && constructs[ci].match(o) {
+					present = append(present, &constructs[ci])
+					break
+				}
+			}
+		}
+		for _, p := range present {
+			atts = append(atts, attempt{s, []*construct{p}})
+		}
+		if len(present) > 1 {
+			atts = append(atts, attempt{s, present})
+		}
+	}
+	if len(atts) > 0 {
+		var jobs []any
+		for _, a := range atts {
+			k2 := *a.s.k
+			k2.B.Ops = append([]op{}, k2.B.Ops...)
+			for x := range k2.B.Ops {
+				for _, p := range a.set {
+					if p.match(k2.B.Ops[x]) {
+						k2.B.Ops[x].Rw = true
+					}
+				}
+			}
+			jobs = append(jobs, childJob{Srcs: []string{program([]*kase{&k2})}})
+		}
+		for ai, r := range c.RunChildren("c04", jobs, par, 60*time.Second, nil) {
+			var cr childRes
+			if r.Out != nil {
+				json.Unmarshal(r.Out, &cr)
+			}
+			a := atts[ai]
+			if a.s.attr != nil || len(cr.Res) != 1 || cr.Res[0].Err != "" {
+				continue
+			}
+			out := splitOutput(cr.Res[0].Out, 1)[0]
+			if step, _ := firstDiff(a.s.want, out); step == len(a.s.want) && !strings.Contains(out, "PANIC") {
+				a.s.attr = a.set
+			}
+		}
+	}
+	// native reference: every disagreement alone (the first few per listed signature), the
+	// agreeing sample many per program
+	var natBad []*st
+	for _, s := range bad {
+		need := s.attr == nil
+		for _, p := range s.attr {
+			ck.mu.Lock()
+			if !c.IsKnown(p.trigger, constructMode) || ck.corroborated[p.id] < 3 {
+				ck.corroborated[p.id]++
+				need = true
+			}
+			ck.mu.Unlock()
+		}
+		if need {
+			natBad = append(natBad, s)
+		} else {
+			ck.verdict(s.k, s.want, s.res, s.crash, s.step, s.got, s.attr, false)
+		}
+	}
+	bad = natBad
 	srcs := make([]string, 0, len(bad)+len(natSample)/chunk+1)
 	for _, s := range bad {
 		srcs = append(srcs, s.src)
@@ -368,51 +448,92 @@ func (ck *checker) process(cases []*kase, par int, nativeEvery int) {
 		if !nativeAgrees(s, n, splitOutput(n.Stdout, 1)[0]) {
 			continue
 		}
-		rep := map[string]any{"b": s.k.B, "scope": s.k.Scope, "origin": s.k.Tier, "program": s.src, "expected": s.want}
+		ck.verdict(s.k, s.want, s.res, s.crash, s.step, s.got, s.attr, true)
+	}
+}
+
+const constructMode = "the history deviates from the construct on and agrees with the model once the construct is rewritten through a temporary"
+
+// construct is the trigger of a construct-shaped known finding together with its
+// neutralising rewrite (applied by stmt when op.Rw is set).
+type construct struct {
+	id      string
+	trigger string
+	match   func(op) bool
+}
+
+var constructs = []construct{
+	{"F-C04-1", "SetLit(S): struct composite literal assigned to a variable of struct type",
+		func(o op) bool { return o.K == "SetLit" && o.X == "S" && len(o.D.Sel) == 0 }},
+	{"F-C04-2", "Box(S): value of a struct type with methods stored in an interface{}",
+		func(o op) bool { return o.K == "Box" && o.X == "S" }},
+}
+
+// verdict records one deviating history.
+func (ck *checker) verdict(k *kase, want []string, res progRes, crash string, step int, got string, attr []*construct, corroborated bool) {
+	c := ck.c
+	rep := map[string]any{"b": k.B, "scope": k.Scope, "origin": k.Tier, "program": k.src(), "expected": want}
+	if corroborated {
 		c.DisagreeChk++
-		trigger := "prologue(" + s.k.B.Init + ")"
-		if s.step >= 1 && s.step <= len(s.k.B.Ops) {
-			trigger = opSig(s.k.B.Ops[s.step-1])
-		}
-		trigger += " [" + s.k.Scope + "]"
-		mode := ""
-		switch {
-		case s.crash != "":
-			mode = "harness child " + s.crash
-			if len(mode) > 60 {
-				mode = mode[:60]
-			}
-		case s.step < len(s.want) && s.got != "<no output>":
-			we, wp := splitLine(s.want[s.step])
-			ge, gp := splitLine(s.got)
-			switch {
-			case we != ge && wp == gp:
-				mode = "reported value differs"
-			case we == ge:
-				mode = "pool state differs"
-			default:
-				mode = "reported value and pool state differ"
-			}
-		case s.res.Err != "":
-			mode = "error: " + errClass(s.res.Err)
-		default:
-			mode = "output stops"
-		}
-		rep["observed_out"] = s.res.Out
-		rep["observed_err"] = s.res.Err
-		rep["first_differing_step"] = s.step
-		rep["observed_line"] = s.got
-		rep["expected_line"] = lineOr(s.want, s.step)
 		rep["native_agrees_with_model"] = true
-		ck.mu.Lock()
-		ck.failing++
-		ck.bySig[trigger+" / "+mode]++
-		ck.mu.Unlock()
-		if !c.Fail(trigger, mode, rep) {
+	}
+	rep["observed_out"] = res.Out
+	rep["observed_err"] = res.Err
+	rep["first_differing_step"] = step
+	rep["observed_line"] = got
+	rep["expected_line"] = lineOr(want, step)
+	ck.mu.Lock()
+	ck.failing++
+	ck.mu.Unlock()
+	if attr != nil {
+		for _, p := range attr {
 			ck.mu.Lock()
-			ck.unlisted[trigger+" / "+mode]++
+			ck.bySig[p.trigger+" / "+constructMode]++
 			ck.mu.Unlock()
+			rep["attributed_to"] = p.id
+			if !c.Fail(p.trigger, constructMode, rep) {
+				ck.mu.Lock()
+				ck.unlisted[p.trigger+" / "+constructMode]++
+				ck.mu.Unlock()
+			}
 		}
+		return
+	}
+	trigger := "prologue(" + k.B.Init + ")"
+	if step >= 1 && step <= len(k.B.Ops) {
+		trigger = opSig(k.B.Ops[step-1])
+	}
+	trigger += " [" + k.Scope + "]"
+	mode := ""
+	switch {
+	case crash != "":
+		mode = "harness child " + crash
+		if len(mode) > 60 {
+			mode = mode[:60]
+		}
+	case step < len(want) && got != "<no output>":
+		we, wp := splitLine(want[step])
+		ge, gp := splitLine(got)
+		switch {
+		case we != ge && wp == gp:
+			mode = "reported value differs"
+		case we == ge:
+			mode = "pool state differs"
+		default:
+			mode = "reported value and pool state differ"
+		}
+	case res.Err != "":
+		mode = "error: " + errClass(res.Err)
+	default:
+		mode = "output stops"
+	}
+	ck.mu.Lock()
+	ck.bySig[trigger+" / "+mode]++
+	ck.mu.Unlock()
+	if !c.Fail(trigger, mode, rep) {
+		ck.mu.Lock()
+		ck.unlisted[trigger+" / "+mode]++
+		ck.mu.Unlock()
 	}
 }
 
@@ -507,7 +628,7 @@ func main() {
 }
 
 func newChecker(c *fw.Ctx) *checker {
-	return &checker{c: c, seen: map[string]bool{}, bySig: map[string]int{}, unlisted: map[string]int{}, kinds: map[string]int{}}
+	return &checker{c: c, seen: map[string]bool{}, bySig: map[string]int{}, unlisted: map[string]int{}, kinds: map[string]int{}, corroborated: map[string]int{}}
 }
 
 func run(c *fw.Ctx) error {
